@@ -211,10 +211,10 @@ def quantifier(e: ast.AST):
         if not isinstance(c, (ast.ListComp, ast.GeneratorExp, ast.SetComp)) or len(c.generators) != 1:
             return None
         g = c.generators[0]
-        if g.is_async or not isinstance(g.target, ast.Name):
+        if g.is_async or not isinstance(g.target, (ast.Name, ast.Tuple)):
             return None
-        var = g.target.id
-        if isinstance(c.elt, ast.Name) and c.elt.id == var and len(g.ifs) == 1:
+        var = g.target.id if isinstance(g.target, ast.Name) else g.target
+        if ast.dump(c.elt) == ast.dump(g.target).replace("Store()", "Load()") and len(g.ifs) == 1:
             return g.iter, var, g.ifs[0]
         if not need_elt_var and not g.ifs:
             return g.iter, var, c.elt
@@ -235,12 +235,17 @@ def quantifier(e: ast.AST):
     return None
 
 
-def _rename(e: ast.AST, old: str, new: str) -> ast.AST:
+def _rename(e: ast.AST, old, new: str) -> ast.AST:
+    """Rename the bound variable(s) `old` (a name, or a tuple target) to `new` (`new0`, `new1`, ... for a tuple)."""
     import copy as _c
     e = _c.deepcopy(e)
+    if isinstance(old, str):
+        m = {old: new}
+    else:
+        m = {x.id: f"{new}{i}" for i, x in enumerate(y for y in ast.walk(old) if isinstance(y, ast.Name))}
     for n in ast.walk(e):
-        if isinstance(n, ast.Name) and n.id == old:
-            n.id = new
+        if isinstance(n, ast.Name) and n.id in m:
+            n.id = m[n.id]
     return e
 
 
